@@ -313,6 +313,11 @@ func (t *tlopen) handle(cs *connState) message {
 		ioUnit uint32
 	)
 	if err := ref.safelyRead(func() (err error) {
+		// Only one open of this fid may be in progress: opened is
+		// tested and set under openMu.
+		ref.openMu.Lock()
+		defer ref.openMu.Unlock()
+
 		// Has it been deleted already?
 		if ref.isDeleted() {
 			return linux.EINVAL
@@ -330,14 +335,17 @@ func (t *tlopen) handle(cs *connState) message {
 
 		// Do the open.
 		qid, ioUnit, err = ref.file.Open(t.Flags)
-		return err
+		if err != nil {
+			return err
+		}
+
+		// Mark file as opened and set open mode.
+		ref.opened = true
+		ref.openFlags = t.Flags
+		return nil
 	}); err != nil {
 		return newErr(err)
 	}
-
-	// Mark file as opened and set open mode.
-	ref.opened = true
-	ref.openFlags = t.Flags
 
 	return &rlopen{QID: qid, IoUnit: ioUnit}
 }
